@@ -92,6 +92,37 @@ def run(ctx, rep):
     rep.analysed(g)
     conds = [g.expr(g.term(b).ops[0]).replace(' ', '') for b in range(len(g.blocks)) if g.term(b).op == 'br' and len(g.term(b).ops) == 3]
     rep.check(any('split_mac' in x for x in conds) and any('size==0' in x for x in conds), 'R-C17-3', 'parity_split_is_fixed: a split is growing iff it is the last or the next one is empty', g.file, str(conds), function='parity_split_is_fixed', construct='fixed predicate')
+    # the predicate ranges over a finite domain (split_mac <= SPLIT_MAX, sizes matter only as zero / non-zero): interpret it for all of it
+    from .. import kernels as K
+    from ..comparators import field_offsets
+    hl = P.structs.get('struct.snapraid_parity_handle')
+    dh = P.distructs.get('snapraid_parity_handle'); dsp = P.distructs.get('snapraid_split_handle')
+    if not (hl and dh and dsp):
+        raise AnalysisBroken('layout of snapraid_parity_handle not found')
+    off_mac = [m_ for m_ in dh['members'] if m_['name'] == 'split_mac'][0]
+    off_map = [m_ for m_ in dh['members'] if m_['name'] == 'split_map'][0]
+    off_size = [m_ for m_ in dsp['members'] if m_['name'] == 'size'][0]
+    nsplit = off_map['bits'] // 8 // dsp['size']
+    bad = None
+    nev = 0
+    import itertools as _it
+    for mac in range(1, nsplit + 1):
+        for sizes in _it.product((0, 4096), repeat=mac):
+            for s_ in range(mac):
+                m_ = K.Machine(P, 64, 0, [])
+                hp = K.Ptr(('stack', 'h', 'obj'), 0)
+                m_.mem[(hp.reg, off_mac['off'])] = (mac, off_mac['bits'] // 8)
+                for k_, sz in enumerate(sizes):
+                    m_.mem[(hp.reg, off_map['off'] + k_ * dsp['size'] + off_size['off'])] = (sz, off_size['bits'] // 8)
+                try:
+                    r_ = K.run_function(m_, 'parity_split_is_fixed', [hp, s_])
+                except (K.KernelViolation, K.Unsupported) as e_:
+                    raise AnalysisBroken('cannot interpret parity_split_is_fixed: %s' % e_)
+                want = 1 if (s_ + 1 < mac and sizes[s_ + 1] != 0) else 0
+                nev += 1
+                if (1 if r_ else 0) != want and bad is None:
+                    bad = 'split_mac=%d sizes=%s s=%d: returns %s, a split is fixed iff a later split is in use (expected %d)' % (mac, ['0' if x == 0 else 'used' for x in sizes], s_, r_, want)
+    rep.check(bad is None, 'R-C17-3', 'parity_split_is_fixed over its whole domain (split_mac 1..%d, every zero/used pattern, every s)' % nsplit, g.file, '%d evaluations' % nev if bad is None else bad, function='parity_split_is_fixed', construct='fixed predicate domain')
     s = P.fn('state_sync')
     im2 = [b for b in range(len(s.blocks)) if s.term(b).op == 'br' and len(s.term(b).ops) == 3 and 'is_modified' in s.expr(s.term(b).ops[0])]
     nw = [i for i in s.all_insts() if i.op == 'store' and s.expr(i.ops[1]).endswith('->need_write') and s.const_of(i.ops[0]) == 1]
